@@ -227,11 +227,31 @@ def check_decoders(ctx, n, rng):
         "seq_len_short": b"\x30" + R.enc_len(len(ri + si) - 1) + ri + si,
         "seq_len_long": b"\x30" + R.enc_len(len(ri + si) + 1) + ri + si,
     }
+    high_bit_length_octets(ctx, n, rng, {})
     for kind, data in cases.items():
         if data is None:
             continue
         expect_reject(ctx, "reject.der", "%s|%s" % (nk, kind), util.sigdecode_der, data, n,
                       (der.UnexpectedDER, util.MalformedSignature), "der_" + kind, "sigdecode_der with %s (%s)" % (kind, data.hex()))
+
+
+def high_bit_length_octets(ctx, n, rng, stats):
+    """A length octet >= 0x80 is never a short-form length.  Inputs where reading it as one would make everything fit: SEQUENCE (or INTEGER)
+    header `tag L` with L in 0x80..0xff followed by exactly L bytes that parse as the expected content."""
+    def ints(total):
+        a = (total - 4) // 2
+        b = total - 4 - a
+        out = b""
+        for ln in (a, b):
+            out += b"\x02" + bytes([ln]) + bytes([rng.randrange(1, 0x80)]) + bytes(rng.randrange(256) for _ in range(ln - 1))
+        return out
+    for L1 in (0x80, 0x81, 0x82, 0x83, 0x84, 0x85, 0x88, 0x8f, 0x90, 0xa0, 0xc0, 0xfe, 0xff):
+        ctx.case("reject.der.high_bit_length_octet", key="seq|%02x" % L1)
+        judge_der_input(ctx, b"\x30" + bytes([L1]) + ints(L1), n, stats)
+        ctx.case("reject.der.high_bit_length_octet", key="int|%02x" % L1)
+        big = b"\x02" + bytes([L1]) + bytes([rng.randrange(1, 0x80)]) + bytes(rng.randrange(256) for _ in range(L1 - 1))
+        judge_der_input(ctx, R.enc_seq(big, R.enc_int(rng.randrange(1, n))), n, stats)
+        judge_der_input(ctx, R.enc_seq(R.enc_int(rng.randrange(1, n)), big), n, stats)
 
 
 def judge_der_input(ctx, data, n, stats):
